@@ -3,6 +3,8 @@
 # pylint: disable=cyclic-import
 # pylint: disable=too-many-instance-attributes
 # pylint: disable=protected-access
+from copy import deepcopy
+
 import numpy as np
 from scipy.spatial.transform import Rotation as R
 
@@ -84,8 +86,8 @@ class BaseGeo(BaseTransform):
     @staticmethod
     def _process_style_kwargs(style=None, **kwargs):
         if kwargs:
-            if style is None:
-                style = {}
+            # do not write into the dictionary of the caller
+            style = {} if style is None else deepcopy(style)
             style_kwargs = {}
             for k, v in kwargs.items():
                 if k.startswith("style_"):
